@@ -43,7 +43,9 @@ def _qt(g, name, shape, dtype, r, qmode=None):
 N_KINDS = 19
 
 
-def fam_hostile(seed, kind=None):
+def fam_hostile(seed, kind=None, pick=None):
+    """kind: sub-generator (random when None); pick (kinds 0 / 1 only): index of the builtin operator, which then gets float32 operands - a CPU-resident
+    instance of that operator whatever else is drawn (used to walk every operator / options table deterministically)"""
     r = rng_for("hostile", seed)
     k0 = int(r.integers(0, N_KINDS))
     kind = k0 if kind is None else int(kind)
@@ -53,6 +55,9 @@ def fam_hostile(seed, kind=None):
         sub = "unary"
         name, opt = UNARY[int(r.integers(0, len(UNARY)))]
         dt = str(r.choice(DTYPES))
+        if pick is not None:
+            name, opt = UNARY[int(pick) % len(UNARY)]
+            dt = "float32"
         shp = rshape(r)
         a = _qt(g, "in", shp, dt, r)
         g.net.inputs.append("in")
@@ -78,6 +83,9 @@ def fam_hostile(seed, kind=None):
         sub = "binary"
         name, opt = BINARY[int(r.integers(0, len(BINARY)))]
         dt = str(r.choice(DTYPES))
+        if pick is not None:
+            name, opt = BINARY[int(pick) % len(BINARY)]
+            dt = "float32"
         shp = rshape(r)
         shp2 = [d if r.integers(0, 3) else 1 for d in shp] if r.integers(0, 2) else list(shp)
         if r.integers(0, 4) == 0 and shp2:
@@ -259,6 +267,32 @@ def fam_hostile(seed, kind=None):
             outs = [g.slice(x, [0, int(r.integers(0, h)), 0, 0], [1, 1, w, c])]
         else:
             outs = [g.strided_slice(x, [0, 1, 0, 0], [1, h, w, c // 2])]
+    elif kind == 13 and r.integers(0, 3) == 0:  # a quantisation table holding only one of the two optional vectors (scale without zero point, or the reverse)
+        sub = "partial-quant"
+        dt = str(r.choice(["int8", "uint8", "int16"]))
+        shp = [1, int(r.choice([2, 4])), int(r.choice([2, 4])), int(r.choice([4, 8]))]
+        which = str(r.choice(["zp", "zp", "scale"]))
+        t = int(r.integers(0, 4))
+        a = g.net.add_t("a", shp, dt, [0.05], [3 if dt != "int16" else 0])
+        z = g.net.add_t("z", shp, dt, [0.25], [1 if dt != "int16" else 0])
+        z.omit = which
+        g.net.add_t("o", shp, dt, [0.1], [0])
+        g.net.inputs += ["a", "z"]
+        if t == 0:  # the partial tensor only meets an operator that stays on the CPU, next to an accelerated one
+            g.net.add_t("p", shp, dt, [0.1], [0])
+            g.net.add_o(BO.POW, ["a", "z"], ["p"], "PowOptions", {}, 1)
+            g.net.add_o(BO.ADD, ["p", "a"], ["o"], "AddOptions", dict(fused_activation_function=0), 2)
+        elif t == 1:  # it is only passed on to a graph output by a CPU operator
+            g.net.add_t("p", shp, dt, [0.25], [1 if dt != "int16" else 0]).omit = which
+            g.net.add_o(BO.FLOOR_MOD, ["z", "z"], ["p"], "FloorModOptions", {}, 1)
+            g.net.add_o(BO.ADD, ["a", "a"], ["o"], "AddOptions", dict(fused_activation_function=0), 2)
+            g.net.outputs = ["p"]
+        elif t == 2:  # it feeds an operator the accelerator could take
+            g.net.add_o(BO.MUL, ["a", "z"], ["o"], "MulOptions", dict(fused_activation_function=0), 2)
+        else:
+            g.net.add_o(BO.MAXIMUM, ["z", "a"], ["o"], "MaximumMinimumOptions", {}, 1)
+        outs = (g.net.outputs or []) + ["o"]
+        g.net.outputs = []
     elif kind == 13:  # weight-carrying operator with one tensor lacking quantisation parameters
         sub = "partial-quant"
         dt = str(r.choice(["int8", "int8", "uint8"]))
